@@ -2,13 +2,29 @@
 
 package acmelib
 
-// VerifC18Globals returns the package-level mutable objects that read-only operations can reach
-// (the special attributes the DBC exporter attaches on the fly and the two lookup tables), so
-// that the C18 deep snapshot covers them.  Add-only hook, injected with -overlay; never committed.
-func VerifC18Globals() []any {
-	return []any{
-		msgCycleTimeAtt, msgDelayTimeAtt, msgStartDelayTimeAtt, msgSendTypeAtt,
-		sigStartValueAtt, sigSendTypeAtt,
-		specialAttributeNames, specialAttributeTypes,
+// VerifC18Global names one package-level variable; Ptr points at it.
+type VerifC18Global struct {
+	Name string
+	Ptr  any
+}
+
+// VerifC18Globals returns pointers to the package-level variables of package acmelib, so that the
+// C18 deep snapshot covers process-global state (a lazily filled table or cache written on a read
+// path shows up as snapshot-write:global(<name>)).  Add-only hook, injected with -overlay; never
+// committed.
+//
+// This file is the FALLBACK list (the variables of the pinned tree).  props/C18/check.py
+// regenerates the list on every run from the sources of the tree under check
+// (props/C18/globals, go/parser), so that a variable introduced by a later change is covered too.
+func VerifC18Globals() []VerifC18Global {
+	return []VerifC18Global{
+		{"ErrIsDuplicated", &ErrIsDuplicated}, {"ErrNotFound", &ErrNotFound}, {"ErrIsNegative", &ErrIsNegative},
+		{"ErrOutOfBounds", &ErrOutOfBounds}, {"ErrIsZero", &ErrIsZero}, {"ErrIsNil", &ErrIsNil},
+		{"ErrNoSpaceLeft", &ErrNoSpaceLeft}, {"ErrIntersect", &ErrIntersect}, {"ErrInvalidType", &ErrInvalidType},
+		{"ErrReceiverIsSender", &ErrReceiverIsSender}, {"ErrTooSmall", &ErrTooSmall}, {"ErrTooBig", &ErrTooBig},
+		{"specialAttributeNames", &specialAttributeNames}, {"specialAttributeTypes", &specialAttributeTypes},
+		{"msgCycleTimeAtt", &msgCycleTimeAtt}, {"msgDelayTimeAtt", &msgDelayTimeAtt},
+		{"msgStartDelayTimeAtt", &msgStartDelayTimeAtt}, {"msgSendTypeAtt", &msgSendTypeAtt},
+		{"sigStartValueAtt", &sigStartValueAtt}, {"sigSendTypeAtt", &sigSendTypeAtt},
 	}
 }
